@@ -234,7 +234,9 @@ func (p *PeerInfo) EnodeID() string {
 
 // EnodeURI returns the full enode connection string: "enode://{128 ascii chars}@{remote address}:{port}"
 func (p *PeerInfo) EnodeURI() string {
-	return "enode://" + p.EnodeID() + "@" + p.Network.RemoteAddress
+	// The zone of a link-local address ([fe80::1%eth0]:30303) has to be
+	// escaped to be part of a URI.
+	return "enode://" + p.EnodeID() + "@" + strings.Replace(p.Network.RemoteAddress, "%", "%25", -1)
 }
 
 func (p *PeerInfo) IsFullNode() bool {
